@@ -297,6 +297,34 @@ func Scan(src []interface{}, dest ...interface{}) ([]interface{}, error) {
 			default:
 				zzrt.Fail("model-redigo-scan-dest-unsupported")
 			}
+		case []interface{}:
+			// convertAssignArray: a slice destination is filled element by element
+			switch p := d.(type) {
+			case *[]string:
+				out := make([]string, 0, len(s))
+				for _, e := range s {
+					b, ok := e.([]byte)
+					if !ok {
+						return src[len(dest):], errors.New("redigo.Scan: cannot convert array element")
+					}
+					out = append(out, string(b))
+				}
+				*p = out
+			case *[][]byte:
+				out := make([][]byte, 0, len(s))
+				for _, e := range s {
+					b, ok := e.([]byte)
+					if !ok {
+						return src[len(dest):], errors.New("redigo.Scan: cannot convert array element")
+					}
+					out = append(out, b)
+				}
+				*p = out
+			case *[]interface{}:
+				*p = s
+			default:
+				zzrt.Fail("model-redigo-scan-dest-unsupported")
+			}
 		case redigo.Error:
 			return src[len(dest):], s
 		default:
